@@ -25,7 +25,7 @@ structure Params where
 structure Result where
   out : List Elem
   copyWindows : List (Nat × Nat)     -- per thread: slice [starts[t], starts[t+1]) copied into its temporary
-  mergeWindows : List (Int × Int)    -- per thread: (offset, length_am)
+  mergeWindows : List (Nat × Nat)    -- per thread: (offset, length_am)
   constructed : Nat                  -- element objects placed into raw storage by the sort
   destroyed : Nat                    -- … and destroyed by it
   deriving Repr
@@ -62,102 +62,74 @@ def ledger (starts : List Nat) : Nat × Nat :=
 def lowerBound (lt : Int → Int → Bool) (run : List Elem) (v : Int) : Nat :=
   (run.takeWhile (fun x => lt x.key v)).length
 
-structure Piece where
-  b : Int
-  e : Int
-  deriving Repr, Inhabited
+/-- exact splitting: the end offsets `pieces[iam][·].end` of every thread
+(`multisequence_partition` at rank `starts[iam+1]`; the last thread ends at the ends of the temporaries) -/
+def exactPieceEnds (part : Int → R (List Nat)) (temps : List (List Elem)) (starts : List Nat) (p : Nat) :
+    R (List (List Nat)) := do
+  let inner ← (List.range (p - 1)).mapM (fun iam => part (starts.getD (iam + 1) 0))
+  pure (inner ++ [temps.map List.length])
 
-/-- exact splitting: pieces[iam][seq] -/
-def exactPieces (P : Params) (temps : List (List Elem)) (starts : List Nat) (p : Nat) : R (List (List Piece)) := do
-  let c8 : C08.Ctx := { lt := P.lt, runs := (temps.map fun r => (r.map (·.key)).toArray).toArray }
-  -- ends
-  let mut ends : List (List Int) := []
-  for iam in List.range p do
-    if iam < p - 1 then
-      match C08.runM (C08.partitionM c8 (starts.getD (iam + 1) 0)) with
-      | .ok (o, _) => ends := ends ++ [o.toList]
-      | .error e => throw s!"multisequence_partition: {e}"
-    else
-      ends := ends ++ [temps.map fun r => (r.length : Int)]
-  -- begins = ends of the previous thread
-  let mut pieces : List (List Piece) := []
-  for iam in List.range p do
-    let en := ends.getD iam []
-    let bg : List Int := if iam > 0 then ends.getD (iam - 1) [] else temps.map fun _ => 0
-    pieces := pieces ++ [(List.range p).map fun s => ⟨bg.getD s 0, en.getD s 0⟩]
-  return pieces
+/-- `sd->source[idx]` -/
+def sourceKey (source : List Elem) (idx : Int) : R Int :=
+  if idx < 0 then throw "sample read out of bounds"
+  else match source[idx.toNat]? with
+    | some e => pure e.key
+    | none => throw "sample read out of bounds"
 
-/-- sampling splitting: `determine_samples` of every thread (reads the caller's unsorted range),
-sorted by the barrier's completion step, then `lower_bound`s -/
-def samplingPieces (P : Params) (source : List Elem) (temps : List (List Elem)) (starts : List Nat) (p : Nat) :
-    R (List (List Piece)) := do
+/-- `determine_samples` of every thread (reads the caller's *unsorted* range at
+`starts[iam] + equally_split(length_local, num_samples+1)[i+1]`), then the barrier's `std::sort` -/
+def sortedSamples (lt : Int → Int → Bool) (source : List Elem) (starts : List Nat) (p ns : Nat) : R (List Int) := do
+  let rows ← (List.range p).mapM (fun iam =>
+    let es := equallySplit ((starts.getD (iam + 1) 0 - starts.getD iam 0 : Nat) : Int) (ns + 1)
+    (List.range ns).mapM (fun i => sourceKey source ((starts.getD iam 0 : Nat) + es.getD (i + 1) 0)))
+  pure (sortKeys lt rows.flatten)
+
+/-- sampling splitting: the end offsets of every thread's pieces (`lower_bound` of
+`samples[num_samples * (iam+1)]` in every sorted temporary; the last thread ends at the ends) -/
+def samplingPieceEnds (P : Params) (source : List Elem) (temps : List (List Elem)) (starts : List Nat) (p : Nat) :
+    R (List (List Nat)) := do
   let ns : Nat := P.osf * p - 1
-  let mut samples : List Int := []
-  for iam in List.range p do
-    let st := starts.getD iam 0
-    let len := starts.getD (iam + 1) 0 - st
-    let es := equallySplit len (ns + 1)
-    for i in List.range ns do
-      let idx : Int := (st : Int) + es.getD (i + 1) 0
-      if idx < 0 then throw "sample read out of bounds"
-      match source[idx.toNat]? with
-      | some e => samples := samples ++ [e.key]
-      | none => throw "sample read out of bounds"
-  let sorted := (sortKeys P.lt samples).toArray
-  let mut pieces : List (List Piece) := []
-  for iam in List.range p do
-    let mut row : List Piece := []
-    for s in List.range p do
-      let run := temps.getD s []
-      let b ← if ns * iam > 0 then
-          match sorted[ns * iam]? with
-          | some v => pure (lowerBound P.lt run v : Int)
-          | none => throw "sample read out of bounds"
-        else pure (0 : Int)
-      let e ← if ns * (iam + 1) < ns * p then
-          match sorted[ns * (iam + 1)]? with
-          | some v => pure (lowerBound P.lt run v : Int)
-          | none => throw "sample read out of bounds"
-        else pure (run.length : Int)
-      row := row ++ [⟨b, e⟩]
-    pieces := pieces ++ [row]
-  return pieces
+  let sorted ← sortedSamples P.lt source starts p ns
+  let inner ← (List.range (p - 1)).mapM (fun iam => do
+    let v ← C07.splitterAt sorted (ns * (iam + 1))
+    pure (temps.map fun run => lowerBound P.lt run v))
+  pure (inner ++ [temps.map List.length])
 
-def slicePiece (run : List Elem) (c : Piece) : R (List Elem) :=
-  if c.b < 0 || c.e < c.b || c.e > run.length then throw "piece is not a sub-range of its sequence"
-  else pure ((run.drop c.b.toNat).take (c.e - c.b).toNat)
+/-- one thread of the merge-back: offset, and the merge of all `length_am` elements of its pieces -/
+def mergePart (lt : Int → Int → Bool) (temps : List (List Elem)) (row : List C07.Chunk) : R (Nat × List Elem) := do
+  let parts ← (List.zip temps row).mapM (fun rc => C07.sliceChunk rc.1 rc.2)
+  let offset := (row.map (·.first)).sum
+  let lengthAm := (row.map (fun c => c.second - c.first)).sum
+  pure (offset, kMergeTake lt parts lengthAm)
+
+/-- the merge-back of all threads into the caller's range, and the ledger of the temporaries -/
+def msRun (lt : Int → Int → Bool) (temps : List (List Elem)) (n : Nat) (starts : List Nat) (ends : List (List Nat)) :
+    R Result := do
+  -- pieces[iam][s] = [end of thread iam-1, end of thread iam)
+  let rows := C07.chunkTable (List.replicate temps.length 0) ends
+  -- merge directly to target
+  let wins ← rows.mapM (mergePart lt temps)
+  let out ← assemble n wins
+  pure { out := out, copyWindows := windowsBy starts, mergeWindows := wins.map (fun w => (w.1, w.2.length)),
+         constructed := (ledger starts).1, destroyed := (ledger starts).2 }
+
+/-- the temporaries: local sort of every slice (uninitialized_copy, then std::(stable_)sort = stable sort
+up to the order of equivalent keys) -/
+def tempsOf (lt : Int → Int → Bool) (input : List Elem) (starts : List Nat) : List (List Elem) :=
+  (slicesBy input starts).map fun slice => kMerge lt [slice]
 
 /-- `parallel_mergesort_base<Stable>`; `input` carries `pos` = index -/
-def pmsort (P : Params) (input : List Elem) : R Result := do
-  let n := input.length
-  if n ≤ 1 then
-    return { out := input, copyWindows := [], mergeWindows := [], constructed := 0, destroyed := 0 }
-  if P.threads == 0 then throw "zero threads"
-  let p := if P.threads > n then n else P.threads
-  let starts := startsOf n p
-  -- local sort of every slice in its temporary (uninitialized_copy, then std::(stable_)sort = stable sort
-  -- up to the order of equivalent keys)
-  let temps : List (List Elem) := (slicesBy input starts).map fun slice => kMerge P.lt [slice]
-  let cw := windowsBy starts
-  let pieces ← if P.exact then exactPieces P temps starts p else samplingPieces P input temps starts p
-  -- merge directly to target
-  let mut wins : List (Int × List Elem) := []
-  let mut mw : List (Int × Int) := []
-  for iam in List.range p do
-    let row := pieces.getD iam []
-    let mut offset : Int := 0
-    let mut lengthAm : Int := 0
-    let mut parts : List (List Elem) := []
-    for s in List.range p do
-      let c := row.getD s default
-      lengthAm := lengthAm + (c.e - c.b)
-      offset := offset + c.b
-      parts := parts ++ [← slicePiece (temps.getD s []) c]
-    if lengthAm < 0 then throw "negative merge length"
-    mw := mw ++ [(offset, lengthAm)]
-    wins := wins ++ [(offset, kMergeTake P.lt parts lengthAm.toNat)]
-  let out ← assemble n wins
-  let (constructed, destroyed) := ledger starts
-  return { out := out, copyWindows := cw, mergeWindows := mw, constructed := constructed, destroyed := destroyed }
+def pmsort (P : Params) (input : List Elem) : R Result :=
+  if input.length ≤ 1 then
+    pure { out := input, copyWindows := [], mergeWindows := [], constructed := 0, destroyed := 0 }
+  else if P.threads == 0 then throw "zero threads"
+  else
+    let p := if P.threads > input.length then input.length else P.threads
+    let starts := startsOf input.length p
+    let temps := tempsOf P.lt input starts
+    if P.exact then
+      exactPieceEnds (C07.partOffsets P.lt temps) temps starts p >>= msRun P.lt temps input.length starts
+    else
+      samplingPieceEnds P input temps starts p >>= msRun P.lt temps input.length starts
 
 end TlxVerif.C06
